@@ -138,7 +138,10 @@ type handled struct {
 	outs    []*message.Message
 	snaps   []lib.Snap
 	ctxVals [5]string
+	ownCtx  []any // per output: the value its own context carried when the handler returned it
 }
+
+type ownCtxKey struct{}
 
 func ctxVals(ctx context.Context) [5]string {
 	return [5]string{message.HandlerNameFromCtx(ctx), message.SubscribeTopicFromCtx(ctx), message.PublishTopicFromCtx(ctx),
@@ -198,6 +201,10 @@ func runCase(t *rapid.T, c caseT) {
 				for i := 0; i < ms.Outs; i++ {
 					o := message.NewMessage(fmt.Sprintf("%s-o%d", tag, i), []byte(hs.Name+"/"+tag))
 					o.Metadata.Set("i", fmt.Sprint(i))
+					if i%2 == 1 || len(tag)%2 == 1 {
+						// outputs may carry a context of their own (tracing spans, deadlines): the router only ADDS its values
+						o.SetContext(context.WithValue(context.Background(), ownCtxKey{}, "own:"+o.UUID))
+					}
 					outs = append(outs, o)
 					if i == 0 && ms.Dup {
 						outs = append(outs, o)
@@ -214,6 +221,7 @@ func runCase(t *rapid.T, c caseT) {
 			rec := handled{handler: hs.Name, ctx: msg.Context(), outs: append([]*message.Message(nil), outs...), ctxVals: ctxVals(msg.Context())}
 			for _, o := range outs {
 				rec.snaps = append(rec.snaps, lib.SnapOf(o))
+				rec.ownCtx = append(rec.ownCtx, o.Context().Value(ownCtxKey{}))
 			}
 			mu.Lock()
 			handledBy[tag] = append(handledBy[tag], rec)
@@ -255,6 +263,7 @@ func runCase(t *rapid.T, c caseT) {
 						if n := len(recs); n > 0 {
 							recs[n-1].outs = append(recs[n-1].outs, o)
 							recs[n-1].snaps = append(recs[n-1].snaps, lib.SnapOf(o))
+							recs[n-1].ownCtx = append(recs[n-1].ownCtx, nil)
 						}
 						mu.Unlock()
 					}
@@ -466,6 +475,9 @@ func runCase(t *rapid.T, c caseT) {
 				want := [5]string{hs.Name, hs.SubTopic, hs.PubTopic, subName[hs.Sub], pubName[hs.Pub]}
 				if got := ctxVals(pc.Ctxs[k]); got != want {
 					t.Fatalf("violation: context of produced message %d of %s reports %q, want %q", k, hname, got, want)
+				}
+				if wantOwn := r.ownCtx[k]; pc.Ctxs[k].Value(ownCtxKey{}) != wantOwn {
+					t.Fatalf("violation: produced message %d of %s/%s reaches the publisher with the own context value %v, the handler gave it %v", k, hname, src, pc.Ctxs[k].Value(ownCtxKey{}), wantOwn)
 				}
 			}
 		}
